@@ -136,6 +136,13 @@ func ruleC13(c *Ctx) {
 	c.RequireOrder("order", rc, "(*protocol/state.UtxoViewpoint).ApplyBlock", "(*protocol.Chain).setState")
 	c.RequireCall(R, src, true, "(*protocol.Chain).setState")
 
+	// the spend checks run on what the store loader put into the view: an entry already in the
+	// view (e.g. spent earlier in the same reorganisation) must never be replaced by the stored one
+	if gtu := c.Func("database", "getTransactionsUtxo"); gtu != nil {
+		for _, mu := range mapUpdatesOf(gtu, "protocol/state.UtxoViewpoint", "Entries") {
+			c.RequireFactsAtInstr("facts", fname(gtu)+": an entry already in the view is never overwritten (HasUtxo == false)", mu, "call:(*protocol/state.UtxoViewpoint).HasUtxo = false")
+		}
+	}
 	// unsigned arithmetic of the consensus predicates cannot wrap: every x - y on unsigned values in
 	// package protocol/validation is ordered by a dominating comparison
 	var vfns []*ssa.Function
